@@ -10,6 +10,8 @@ pub enum Scenario {
     HistW(crate::fam_histw::HwScn),
     Crash(crate::fam_crash::CrashScn),
     WFault(crate::fam_wfault::WfScn),
+    RFault(crate::fam_rfault::RfScn),
+    Corrupt(crate::fam_corrupt::CorScn),
 }
 
 impl Scenario {
@@ -19,6 +21,8 @@ impl Scenario {
             Scenario::HistW(_) => "HIST-W",
             Scenario::Crash(_) => "CRASH",
             Scenario::WFault(_) => "WFAULT",
+            Scenario::RFault(_) => "RFAULT",
+            Scenario::Corrupt(_) => "CORRUPT",
         }
     }
 }
@@ -30,6 +34,8 @@ pub fn execute(s: &Scenario, ctx: &mut Ctx) {
         Scenario::HistW(x) => crate::fam_histw::execute(x, ctx),
         Scenario::Crash(x) => crate::fam_crash::execute(x, ctx),
         Scenario::WFault(x) => crate::fam_wfault::execute(x, ctx),
+        Scenario::RFault(x) => crate::fam_rfault::execute(x, ctx),
+        Scenario::Corrupt(x) => crate::fam_corrupt::execute(x, ctx),
     }
 }
 
